@@ -1,3 +1,4 @@
 pub mod crash;
 pub mod w1;
 pub mod w2;
+pub mod w3;
